@@ -705,7 +705,8 @@ func evalScriptDir(cs []container, wants func(kind string) [][]entry, stats map[
 	// a pool program run earlier in this worker process may have left set_time_limit's process-global
 	// deadline behind (itself a residue, but one that only a wall clock shows): it must not kill this script
 	core.SetExecutionDeadline(0)
-	o = observe(histScript(cs))
+	src := histScript(cs)
+	o = observeFuel(src, 3_000_000+int64(len(src))*2_000) // bulk scripts are long: the budget grows with the script
 	vshim.OnIter = nil
 	if o.Kind != "ok" || !strings.Contains(o.Out, "end|end|end") {
 		return []histFailure{{Kind: "script", Birth: "-", Route: "script-error", Why: "the generated script did not run to its end", Got: o.String()}}, o, ranged
@@ -1042,10 +1043,10 @@ func bulkOps(b bulkSpec) (ops []hop) {
 	return
 }
 
-// bulk keys: k<i> as strings ("str") or 100+i as ints ("int")
+// bulk keys: scattered k<j> strings ("str") or descending sparse ints ("int")
 func bulkKey(style string, i int) akey {
 	if style == "int" {
-		s := strconv.Itoa(1000 - 7*i)
+		s := strconv.Itoa(5000 - 7*i) // positive for every i the specs use (origami rejects negative indexes)
 		return akey{s, s}
 	}
 	s := fmt.Sprintf("k%d", (i*37)%1009)
